@@ -375,6 +375,9 @@ impl OutstationSession {
         loop {
             if let Err(err) = self.run_idle_state(io, reader, writer, database).await {
                 self.state.reset();
+                // whatever was written to a response that can no longer be confirmed is
+                // available again
+                database.reset();
                 return err;
             }
         }
@@ -546,6 +549,8 @@ impl OutstationSession {
                         Ok(NextIdleAction::SleepUntilEvent)
                     }
                     Some(UnsolicitedResult::Timeout) | Some(UnsolicitedResult::ReturnToIdle) => {
+                        // the events of the unconfirmed response are available again
+                        database.reset();
                         let retry_at = self.new_unsolicited_retry_deadline();
                         self.state.unsolicited = UnsolicitedState::Ready(Some(retry_at));
                         Ok(NextIdleAction::SleepUnit(retry_at))
